@@ -204,12 +204,12 @@ def run_check(prop, tier, seed, replay=None, nshards=None, keep=False):
     for ln in lines:
         print(ln)
     rc = 0
+    for r in merged["inconclusive"][:12]:
+        print("INCONCLUSIVE property=%s reason=%s" % (
+            prop, r.replace("\n", " | ")[-700:]))
     if unknown:
         rc = 1
     elif merged["inconclusive"]:
-        for r in merged["inconclusive"]:
-            print("INCONCLUSIVE property=%s reason=%s" % (prop,
-                                                         r.replace("\n", " | ")[:1200]))
         rc = 2
     print("%s tier=%s seed=%s evaluations=%d distinct=%d known=%d "
           "violations=%d wall=%.1fs -> %s" % (
